@@ -51,6 +51,8 @@ func IMMSites() []Site {
 		{Tag: "T2 mut compound x2.F+=", Stmt: "x2.F += 1", Subj: SubjT2Mut, Codes: i2},
 		// the importing package's own same-named type
 		{Tag: "own-T assign (&T{}).F", Stmt: "(&T{}).F = 1", Subj: SubjOwnT, Codes: i1, Core: true, OnlyInU: true},
+		// undocumented type spec that follows an annotated spec inside one type ( ... ) group
+		{Tag: "twin group-sibling u2.F", Stmt: "u2.F = 1", Subj: SubjTwin, Core: true},
 		// twin
 		{Tag: "twin assign tw.F", Stmt: "tw.F = 1", Subj: SubjTwin, Core: true},
 		{Tag: "twin incdec tp.F++", Stmt: "tp.F++", Subj: SubjTwin},
@@ -92,6 +94,9 @@ func CTORSites() []Site {
 		{Tag: "lit arg use(T{})", Stmt: "use({TL}{})", Subj: SubjT, Codes: c1},
 		{Tag: "lit assign *p=T{}", Stmt: "*p = {TL}{}", Subj: SubjT, Codes: c1},
 		{Tag: "lit two T{},T{}", Stmt: "_, _ = {TL}{}, &{TL}{}", Subj: SubjT, Codes: []string{"CTOR01", "CTOR01"}},
+		{Tag: "lit two-elided []T{{},{}}", Stmt: "_ = []{T}{{}, {}}", Subj: SubjT, Codes: []string{"CTOR01", "CTOR01"}},
+		{Tag: "lit+new use(T{}, new(T))", Stmt: "use({TL}{}, new({T}))", Subj: SubjT, Codes: []string{"CTOR01", "CTOR02"}},
+		{Tag: "lit nested []T{{Xs:nil}} in call", Stmt: "use(len([]{T}{{Xs: nil}}), {TL}{})", Subj: SubjT, Codes: []string{"CTOR01", "CTOR01"}},
 		{Tag: "new(T)", Stmt: "_ = new({T})", Subj: SubjT, Codes: c2, Core: true, PkgLevel: "var $g = new({T})"},
 		{Tag: "new var v=new(T)", Stmt: "var $v = new({T}); _ = $v", Subj: SubjT, Codes: c2},
 		{Tag: "new arg use(new(T))", Stmt: "use(new({T}))", Subj: SubjT, Codes: c2},
@@ -104,6 +109,16 @@ func CTORSites() []Site {
 		// the importing package's own same-named type
 		{Tag: "own-T lit T{}", Stmt: "_ = T{}", Subj: SubjOwnT, Codes: c1, Core: true, OnlyInU: true},
 		{Tag: "own-T var v T", Stmt: "var $v T; _ = $v", Subj: SubjOwnT, Codes: c3, OnlyInU: true},
+		// grouped var declarations
+		{Tag: "vargroup init-before-zero", Lines: []string{"var (", "\ta$v = 1", "\t$v {T}", ")", "_, _ = a$v, $v"}, At: 2, Subj: SubjT, Codes: c3, Core: true,
+			PkgLines: []string{"var (", "\tA$g = 1", "\t$g {T}", ")"}, PkgAt: 2},
+		{Tag: "vargroup zero-before-init", Lines: []string{"var (", "\t$v {T}", "\tb$v = 2", ")", "_, _ = b$v, $v"}, At: 1, Subj: SubjT, Codes: c3,
+			PkgLines: []string{"var (", "\t$g {T}", "\tB$g = 2", ")"}, PkgAt: 1},
+		{Tag: "vargroup lit-after-init", Lines: []string{"var (", "\tc$v = 1", "\t$v = {TL}{}", ")", "_, _ = c$v, $v"}, At: 2, Subj: SubjT, Codes: c1,
+			PkgLines: []string{"var (", "\tC$g = 1", "\t$g = {TL}{}", ")"}, PkgAt: 2},
+		{Tag: "vargroup twin-then-T", Lines: []string{"var (", "\td$v {P}", "\t$v {T}", ")", "_, _ = d$v, $v"}, At: 2, Subj: SubjT, Codes: c3},
+		{Tag: "twin group-sibling U2{}", Stmt: "_ = {U2}{}", Subj: SubjTwin, Core: true, PkgLevel: "var $g = {U2}{}"},
+		{Tag: "twin group-sibling var U2", Stmt: "var $v {U2}; _ = $v", Subj: SubjTwin},
 		// silent forms
 		{Tag: "silent var p *T", Stmt: "var $v {PT}; _ = $v", Subj: SubjSilent, Core: true, PkgLevel: "var $g {PT}"},
 		{Tag: "silent var _ T", Stmt: "var _ {T}", Subj: SubjSilent, PkgLevel: "var _ {T}"},
